@@ -44,6 +44,7 @@ V_DECLARE_INPUTS
 #define OP_DEL 10
 #define OP_SETMOVE 11
 #define OP_REHASH 12
+#define OP_MARK 13
 /* largest nitems with Table_Ideal_Size(nitems) <= NS (the size schedule itself is checked in OP_INIT) */
 /* MAXN_BELOW: largest nitems that fits the next smaller size (-1: none) */
 #if NS == 1
@@ -151,6 +152,10 @@ void verif_on_throw(void* obj) {
  * pair of sizes on the schedule.  The stub records the request; the harness checks it against the schedule. */
 static int rehash_calls = 0; static size_t rehash_size = 0;
 void verif_rehash_stub(struct Table* t, size_t new_size) { rehash_calls++; rehash_size = new_size; }
+
+/* Mark instance: the collector's callback must be handed every key and every value exactly once */
+static var mark_seen[2 * NS + 2]; static int mark_n = 0; static var mark_gc;
+static void mark_rec(var gc, void* p) { V_ASSERT(gc == mark_gc, "the collector handle is passed through"); if (mark_n < 2 * NS + 2) mark_seen[mark_n] = p; mark_n++; }
 
 static struct Table* arbitrary_table(void) {
   /* the Table object is laid out directly (header + struct); the constructor is covered by OP_INIT */
@@ -348,6 +353,18 @@ V_HARNESS {
   V_ASSERT(t->nitems == 1 && Table_Mem(t, pk) && ((struct Elem*)Table_Get(t, pk))->val == v, "an emptied table keeps working");
   V_ASSERT(elem_live_count() == 2 && elem_ledger_ok, "one key and one value live afterwards");
 
+#elif OP == OP_MARK
+  { static uint64_t gcobj[2]; mark_gc = &gcobj[1];
+    Table_Mark(t, mark_gc, mark_rec);
+    V_WITNESS("mark done");
+    V_ASSERT(mark_n == 2 * (int)n, "Table_Mark reports exactly two objects per binding");
+    _Bool all = 1;
+    for (size_t i = 0; i < NS; i++) if (Table_Key_Hash(t, i) != 0) {
+      int ck = 0, cv = 0;
+      for (int j = 0; j < 2 * NS + 2; j++) if (j < mark_n) { ck += (mark_seen[j] == Table_Key(t, i)); cv += (mark_seen[j] == Table_Val(t, i)); }
+      if (ck != 1 || cv != 1) all = 0;
+    }
+    V_ASSERT(all, "every key and every value of the Table is handed to the collector exactly once (C01: nothing stored in a Table is missed by the mark phase)"); }
 #elif OP == OP_DEL
   Table_Del(t);
   V_WITNESS("deleted");
